@@ -15,37 +15,94 @@ src: mem.c
 enforce: memrec_find_var
 backend: sat
 loops: 1
-timeout: 200
+timeout: 280
 */
 /*@unit
-name: table.add_var
-define: U_ADD, VERIF_MEMHASH_REALLOC_ELEM_T=spifmem_ptr_t
+name: table.add_var.shape
+define: U_ADD, MEM_PART=1, VERIF_MEMHASH_REALLOC_ELEM_T=spifmem_ptr_t, VERIF_MEMHASH_STRNCPY_MODEL
 debug: 5
 src: mem.c
 enforce: memrec_add_var
-replace: spiftool_safe_strncpy
-backend: z3,sat
-timeout: 200
+backend: sat,z3
+timeout: 280
 */
 /*@unit
-name: table.rem_var
-define: U_REM, VERIF_MEMHASH_REALLOC_ELEM_T=spifmem_ptr_t
+name: table.add_var.records
+define: U_ADD, MEM_PART=2, VERIF_MEMHASH_REALLOC_ELEM_T=spifmem_ptr_t, VERIF_MEMHASH_STRNCPY_MODEL
+debug: 5
+src: mem.c
+enforce: memrec_add_var
+backend: sat,z3
+timeout: 280
+*/
+/*@unit
+name: table.add_var.nodup
+define: U_ADD, MEM_PART=3, VERIF_MEMHASH_REALLOC_ELEM_T=spifmem_ptr_t, VERIF_MEMHASH_STRNCPY_MODEL
+debug: 5
+src: mem.c
+enforce: memrec_add_var
+backend: sat,z3
+timeout: 280
+*/
+/*@unit
+name: table.rem_var.shape
+define: U_REM, MEM_PART=1, VERIF_MEMHASH_REALLOC_ELEM_T=spifmem_ptr_t
 debug: 5
 src: mem.c
 enforce: memrec_rem_var
 replace: memrec_find_var
 backend: z3,sat
-timeout: 250
+timeout: 280
 */
 /*@unit
-name: table.chg_var
-define: U_CHG
+name: table.rem_var.records
+define: U_REM, MEM_PART=2, VERIF_MEMHASH_REALLOC_ELEM_T=spifmem_ptr_t
+debug: 5
+src: mem.c
+enforce: memrec_rem_var
+replace: memrec_find_var
+backend: z3,sat
+timeout: 280
+*/
+/*@unit
+name: table.rem_var.nodup
+define: U_REM, MEM_PART=3, VERIF_MEMHASH_REALLOC_ELEM_T=spifmem_ptr_t
+debug: 5
+src: mem.c
+enforce: memrec_rem_var
+replace: memrec_find_var
+backend: z3,sat
+timeout: 280
+*/
+/*@unit
+name: table.chg_var.shape
+define: U_CHG, MEM_PART=1, VERIF_MEMHASH_STRNCPY_MODEL
 debug: 5
 src: mem.c
 enforce: memrec_chg_var
-replace: memrec_find_var, spiftool_safe_strncpy
-backend: sat
-timeout: 200
+replace: memrec_find_var
+backend: sat,z3
+timeout: 280
+*/
+/*@unit
+name: table.chg_var.records
+define: U_CHG, MEM_PART=2, VERIF_MEMHASH_STRNCPY_MODEL
+debug: 5
+src: mem.c
+enforce: memrec_chg_var
+replace: memrec_find_var
+backend: sat,z3
+timeout: 280
+*/
+/*@unit
+name: table.chg_var.nodup
+define: U_CHG, MEM_PART=3, VERIF_MEMHASH_STRNCPY_MODEL
+debug: 5
+src: mem.c
+enforce: memrec_chg_var
+replace: memrec_find_var
+backend: sat,z3
+timeout: 280
 */
 #include "vprelude.h"
 #include "env_memhash.h"
@@ -67,6 +124,7 @@ void harness(void)
 
     __CPROVER_assume(vg_k <= SPIFMEM_FNAME_LEN);      /* byte ghost inside file[] (shapes an input) */
     __CPROVER_assume(vg_r < MEMREC_CAP && vg_r2 < MEMREC_CAP);
+    MEMREC_HARNESS_BUILD(&rec);
     w_cnt = rec.cnt; w_r = vg_r; w_r2 = vg_r2; w_line = line; w_size = size;
 #if defined(U_FIND)
     memrec_find_var(&rec, ptr);
